@@ -62,6 +62,9 @@ def in_domain(c):
 def run(ctx):
     ctx.translate(['Defaults.v'])
     models_ok = ctx.build_models(['Base.Show', 'Model.Retry', 'Spec.RetrySpec', 'Model.RetryTask'])
+    # the composed client front-end rests on p4's task model and the TLS tables: regenerate, build; if that fails the
+    # tie is reported as broken and the scenarios are still judged against the Spec and the RetryTask model
+    FRONT_OK[0] = bool(ctx.translate(['SessionErrors.v', 'TlsVersions.v', 'TlsModes.v'])) and ctx.build_models(['Model.ClientFront'])
     ctx.prove()
     if ctx.tier == 'thorough':
         ctx.coqchk()
@@ -128,10 +131,52 @@ TASK_FN = ('fun c : variant * N * N * list tevent * list op => let \'(v, mn, mx,
 MS = 10**6
 
 
+# the composed client front-end (Model/ClientFront.v, Properties/C09_ClientFront.v) on the same scenarios
+FRONT_REQ = ['Base.Show', 'Spec.Lifecycle', 'Gen.SessionErrors', 'Model.ClientTask', 'Spec.TlsSpec', 'Gen.TlsVersions', 'Gen.TlsModes', 'Model.ClientFront']
+FRONT_T = 'ctransport * N * N * list cevent'
+FRONT_FN = ('fun c : ctransport * N * N * list cevent => let \'(tr, mn, mx, evs) := c in '
+            'show_list (fun x => x) "," (flat_map (fun l => match l with LWaitFailed d => ["F" ++ show_N d] | LWaitDisc d => ["D" ++ show_N d] | _ => [] end) '
+            '(listens_of (snd (crun {| cfg_cap := 8%nat; cfg_res := 1 |} tr (cinit 1 None mn mx) evs))))')
+SRV_GOOD = ('(SrvTls {| offers12 := true; offers13 := true; presented := {| chains_to_authority := true; identical_to_configured := false; '
+            'within_validity := true; name_matches := true; cert_exts := None |} |})')
+SRV_BAD = SRV_GOOD.replace('chains_to_authority := true', 'chains_to_authority := false')
+
+
+def front_to_coq(c):
+    variant, mn, mx, script = c
+    tls = variant.startswith('tls')
+    wait_end = [f'CE (EvTick {mx * MS + MS})', 'CE EvTimer']
+    toggle = ['CE (EvSubmit CDisable SFuture)', 'CE EvRecv', 'CE (EvSubmit CEnable SFuture)', 'CE EvRecv']
+    evs = ['CE (EvSubmit CEnable SFuture)', 'CE EvRecv']
+    for ch in script:
+        if ch == 'r':
+            evs += ['CTcp false SrvCloses'] + wait_end
+        elif tls and ch in 'ct':
+            evs += ['CTcp true SrvCloses', 'CHandshake'] + wait_end
+        elif tls and ch == 'w':
+            evs += [f'CTcp true {SRV_BAD}', 'CHandshake'] + wait_end
+        elif tls and ch == 'h':
+            evs += [f'CTcp true {SRV_GOOD}', 'CHandshake', 'CE EvEof'] + wait_end
+        elif ch in 'cs':
+            evs += ['CTcp true SrvCloses', 'CE EvEof'] + wait_end
+        elif ch == 'd':
+            evs += ['CTcp false SrvCloses'] + toggle
+        elif ch == 'e':
+            evs += ['CTcp true SrvCloses'] + toggle
+        elif ch == 'q':
+            evs += ['CTcp false SrvCloses', 'CE (EvSubmit (CReq {| rq_id := 1%nat; rq_kind := KRead; rq_timeout := 1000 |}) SFuture)', 'CE EvRecv'] + wait_end
+        else:
+            raise ValueError(ch)
+    tr = 'CTls V1_2 AuthorityBased true' if tls else 'CPlain'
+    return f'({tr}, {mn * MS}, {mx * MS}, [{"; ".join(evs)}])'
+
+
 def task_cases(ctx, n):
     r = ctx.rng
-    certs = os.path.join(vlib.REPO, 'certs', 'ca_chain')
-    cases = [('tcp', 20, 70, 'rrrrcsr'), ('tcp', 20, 70, 'crcr'), (f'tls:{certs}', 20, 70, 'rcrcr'), ('tcp', 10, 10, 'rrs'), ('tcp', 20, 70, 's'),
+    certs = os.path.join(vlib.REPO, 'certs', 'ca_chain') + ':' + os.path.join(vlib.ROOT, 'certs', 'ca2')
+    cases = [('tcp', 20, 70, 'rrrrcsr'), ('tcp', 20, 70, 'crcr'), (f'tls:{certs}', 20, 70, 'rcrcr'),
+             (f'tls:{certs}', 20, 70, 'rtr'), (f'tls:{certs}', 20, 70, 'rwwr'), (f'tls:{certs}', 20, 70, 'rrhr'), (f'tls:{certs}', 20, 70, 'chtwr'),
+             (f'tls:{certs}', 15, 100, 'whwh'), (f'tls:{certs}', 10, 80, 'ttr'), (f'tls:{certs}', 20, 70, 'thw'), ('tcp', 10, 10, 'rrs'), ('tcp', 20, 70, 's'),
              ('tcp', 20, 70, 'rrrrrr'), (f'tls:{certs}', 15, 100, 'cccc'), ('tcp', 5, 40, 'rrrrsrrrr'),
              ('tcp', 20, 70, 'drr'), ('tcp', 20, 70, 'rdcdr'), ('tcp', 15, 100, 'ddd'),
              ('tcp', 20, 70, 'rrer'), ('tcp', 10, 100, 'rrrerr'), ('tcp', 20, 70, 'er'), ('tcp', 30, 70, 'qr'), ('tcp', 20, 70, 'rqqr'), ('tcp', 20, 70, 'qqe'), ('tcp', 15, 100, 'rqer'),
@@ -149,7 +194,7 @@ def task_cases(ctx, n):
             else:
                 cases.append(('rtuserver', mn, mx, ''.join(r.choices('rol', weights=(4, 2, 2), k=ln))))
             continue
-        script = ''.join(r.choices('rc' if tls else 'rcsdeq', weights=(5, 2) if tls else (5, 1, 2, 1, 1, 1), k=ln))
+        script = ''.join(r.choices('rctwh' if tls else 'rcsdeq', weights=(5, 2, 1, 2, 2) if tls else (5, 1, 2, 1, 1, 1), k=ln))
         cases.append((f'tls:{certs}' if tls else 'tcp', mn, mx, script))
     return cases
 
@@ -159,7 +204,13 @@ def task_to_coq(c):
     tls = variant.startswith('tls')
     evs, ops = [], []
     for ch in script:
-        if ch == 'l':
+        if tls and ch in 'tw':
+            evs += ['AttemptFails', 'Elapsed']      # the handshake fails (stalled then closed / certificate refused): a failed connect
+            ops += ['Fail']
+        elif tls and ch == 'h':
+            evs += ['AttemptOk', 'Lost', 'Elapsed']  # handshake ok: Connected; then the server goes away
+            ops += ['Reset', 'Disc']
+        elif ch == 'l':
             evs += ['AttemptFails', 'Elapsed']      # device missing; a decode-level command during the wait changes nothing
             ops += ['Fail']
         elif ch == 'd':
@@ -202,12 +253,23 @@ def task_eval(ctx, cases):
                 impl[k] = r
     both = ctx.coq_eval(TASK_REQ, TASK_FN, [task_to_coq(actual_case(c, i)) for c, i in zip(cases, impl)], case_type=TASK_T,
                         preamble='Local Open Scope string_scope.', per_shard=40)
+    # tcp / tls scenarios additionally through the composed client front-end model
+    ix = [k for k, c in enumerate(cases) if c[0] == 'tcp' or c[0].startswith('tls')]
+    if ix and FRONT_OK[0]:
+        fr = ctx.coq_eval(FRONT_REQ, FRONT_FN, [front_to_coq(cases[k]) for k in ix], case_type=FRONT_T, preamble='Local Open Scope string_scope.', per_shard=40)
+        for k, f in zip(ix, fr):
+            both[k] = both[k] + '|' + f
     return impl, both
+
+
+FRONT_OK = [True]
 
 
 def task_judge(i, b):
     """None, or (key, description)"""
-    model, armed, spec = b.split('|')
+    parts = b.split('|')
+    model, armed, spec = parts[0], parts[1], parts[2]
+    front = parts[3] if len(parts) > 3 else None
     fields = [f for f in i.split(',') if f]
     if any(not f or f[0] not in 'FD' or f[-1] not in '+-?i' for f in fields):
         return ('task.unusable-result', f'harness result {i}')
@@ -217,6 +279,8 @@ def task_judge(i, b):
         return ('task.announced-delays-differ-from-spec', f'announced {kinds} but the Spec gives {spec}')
     if values != armed or (model and kinds != model):
         return ('task.model-differs-from-impl', f'announced {kinds} but the model gives {model or armed}')
+    if front is not None and kinds != front:
+        return ('task.client-front-model-differs-from-impl', f'announced {kinds} but the composed client front-end model gives {front}')
     if any(f[-1] == '-' for f in fields):
         return ('task.next-attempt-earlier-than-announced', f'{i}: the next connect/open attempt was announced earlier than the announced delay after the wait announcement')
     if any(f[-1] == '?' for f in fields):
@@ -241,8 +305,8 @@ def run_task_level(ctx):
         if not ctx.quick():
             # thorough: additionally ALL connect-outcome sequences of length <= 4 for every task variant (20/70 ms)
             import itertools
-            certs = os.path.join(vlib.REPO, 'certs', 'ca_chain')
-            for variant, letters in (('tcp', 'rcseq'), (f'tls:{certs}', 'rc'), ('rtu', 'ro'), ('rtuserver', 'rol')):
+            certs = os.path.join(vlib.REPO, 'certs', 'ca_chain') + ':' + os.path.join(vlib.ROOT, 'certs', 'ca2')
+            for variant, letters in (('tcp', 'rcseq'), (f'tls:{certs}', 'rctwh'), ('rtu', 'ro'), ('rtuserver', 'rol')):
                 for ln in (1, 2, 3, 4):
                     for sc in itertools.product(letters, repeat=ln):
                         cases.append((variant, 20, 70, ''.join(sc)))
@@ -267,14 +331,18 @@ def run_task_level(ctx):
         js = task_judge(im[0], bo[0])
         if not js or js[0] != key:
             small, im, bo, js = c, [i], [b], j
-        ctx.violation(key, f'{"RTU server" if small[0] == "rtuserver" else small[0].split(":")[0] + " client"} task, retry {small[1]}..{small[2]} ms, connect outcomes "{small[3]}" (r=refused/no device c=accepted+closed s=served o=port opened then lost d=refused+disable/enable during the wait e=connected then disable/enable q=refused+request during the wait l=no device+level change during the wait): {js[1]}',
+        ctx.violation(key, f'{"RTU server" if small[0] == "rtuserver" else small[0].split(":")[0] + " client"} task, retry {small[1]}..{small[2]} ms, connect outcomes "{small[3]}" (r=refused/no device c=accepted+closed s=served o=port opened then lost d=refused+disable/enable during the wait e=connected then disable/enable q=refused+request during the wait l=no device+level change during the wait; tls: t=accepted, stalls 150 ms, closes w=TLS server of another authority h=TLS server accepted, then stopped): {js[1]}',
                       {'task_cases': [list(small)], 'impl': im[0], 'model|spec': bo[0], 'original_case': list(c)},
                       no_failing_input=(key == 'task.model-differs-from-impl'))
     ctx.oblige('correspondence:task-level-delays', bad == 0, f'{bad} of {len(cases)} scenarios differ')
-    tcls = {'with_disable_while_connected': 0, 'with_request_during_wait': 0, 'with_disable_during_wait': 0, 'wait_abandoned_by_disable': 0, 'tcp': 0, 'tls': 0, 'rtu': 0, 'rtuserver': 0, 'rtuserver_followed_script': 0, 'with_port_opened': 0, 'with_served': 0, 'with_accept_close': 0, 'three_refused_in_a_row': 0, 'capped': 0, 'announcements': 0}
+    tcls = {'tls_handshake_stalled': 0, 'tls_server_refused': 0, 'tls_handshake_ok': 0, 'with_disable_while_connected': 0, 'with_request_during_wait': 0, 'with_disable_during_wait': 0, 'wait_abandoned_by_disable': 0, 'tcp': 0, 'tls': 0, 'rtu': 0, 'rtuserver': 0, 'rtuserver_followed_script': 0, 'with_port_opened': 0, 'with_served': 0, 'with_accept_close': 0, 'three_refused_in_a_row': 0, 'capped': 0, 'announcements': 0}
     for c, i in zip(cases, impl):
         tcls['tls' if c[0].startswith('tls') else c[0]] += 1
         tcls['with_port_opened'] += 'o' in c[3]
+        if c[0].startswith('tls'):
+            tcls['tls_handshake_stalled'] += 't' in c[3]
+            tcls['tls_server_refused'] += 'w' in c[3]
+            tcls['tls_handshake_ok'] += 'h' in c[3]
         tcls['with_disable_during_wait'] += 'd' in c[3]
         tcls['with_disable_while_connected'] += 'e' in c[3]
         tcls['with_request_during_wait'] += 'q' in c[3]
@@ -286,7 +354,7 @@ def run_task_level(ctx):
         tcls['capped'] += f'F{c[2] * MS}' in i
         tcls['announcements'] += len([f for f in i.split(',') if f])
     if not ctx.replay:
-        ctx.oblige('task-generator-reaches-expected-classes', all(tcls[k] >= 3 for k in ('with_disable_while_connected', 'with_request_during_wait', 'tcp', 'tls', 'rtu', 'rtuserver', 'rtuserver_followed_script', 'with_port_opened', 'with_served', 'with_accept_close', 'three_refused_in_a_row', 'capped')), str(tcls))
+        ctx.oblige('task-generator-reaches-expected-classes', all(tcls[k] >= 3 for k in ('tls_handshake_stalled', 'tls_server_refused', 'tls_handshake_ok', 'with_disable_while_connected', 'with_request_during_wait', 'tcp', 'tls', 'rtu', 'rtuserver', 'rtuserver_followed_script', 'with_port_opened', 'with_served', 'with_accept_close', 'three_refused_in_a_row', 'capped')), str(tcls))
     ctx.coverage['task_level'] = {
         'scenarios': len(cases),
         'distinct_nontrivial': len(set(c for c in cases if len(c[3]) >= 2)),
